@@ -148,6 +148,27 @@ prop("C12",
      ["'within one unit' and monotonicity of the float conversion (numerical)", "time_track values"],
      COMMON_ASSUMPTIONS)
 
+prop("C16",
+     ["PT1", "PT2", "PT3", "PT4", "NT1"],
+     "The discipline that makes the encoder/scanner pair the only place where names and paths meet: every path producer goes through the "
+     "quote-doubling encoder (shape checked: separator + join of quote + replace(quote, doubled) + quote, components present iff not None), "
+     "no hand-formatted paths, no ad-hoc parsing (split/strip/positional slicing), scanner alphabet = encoder alphabet with the doubled quote "
+     "consumed as one, name-keyed and path-keyed maps indexed with the right kind of key.",
+     ["decode(encode(g, c)) == (g, c) for all strings (a semantic fact about the scanner; needs enumeration of strings, another family)"],
+     COMMON_ASSUMPTIONS)
+
+prop("C18",
+     ["TB1", "TB2", "TB3", "TB4", "TB5", "OW3"],
+     "The thermocouple module is data in source form plus a four-function evaluator. Decided: each table partitions the real line (totality with "
+     "the inclusive-start/exclusive-end membership test, nothing but the unreachable default yields NaN), conditions/functions built from the "
+     "same list, ascending-order polynomial evaluation, forward coefficients/boundaries/exponential constants equal the vendored NIST ITS-90 "
+     "tables (thorough: cross-checked against the copy in /venv), inverse tables equal the reviewed transcription of the pinned tree, NI type "
+     "codes -> tables of the same letter, direction and microvolt factors.",
+     ["monotonicity and the dense-grid clauses (numerical)", "that the NIST inverse polynomials meet their stated error (trusted: NIST)"],
+     COMMON_ASSUMPTIONS + ["sa/refdata/nist_its90_forward.json is a faithful transcription of NIST SRD 60 (cross-checked by ast against thermocouples_reference in the thorough tier)",
+                           "sa/refdata/nist_its90_inverse_pinned.json was transcribed from the pinned tree (no independent offline source); tools/vendor_nist.py printed a one-off "
+                           "inverse(forward(T)) consistency report at vendoring time"])
+
 # ---------------------------------------------------------------------------
 # MANIFEST texts
 LEVEL_TEXT = {
@@ -184,7 +205,11 @@ for _pid, _txt in {
     LEVEL_TEXT[_pid] = _txt
 LEVEL_TEXT["C07"] = "Partial claim: round-trip equality is not a static target; decided are the tables, thresholds, layouts and exact-integer paths writer and reader must agree on."
 LEVEL_TEXT["C12"] = "Partial claim: the exactness clause is decided by interval analysis of the encoder (float64 cannot hold integers beyond 2**53); sibling and constant checks; numerical clauses are not decided."
+LEVEL_TEXT["C16"] = "Partial claim: the taint-style discipline around the path grammar is decided (who produces paths, who parses them, alphabet agreement, key spaces); inverse-ness of the scanner for all strings is not."
+LEVEL_TEXT["C18"] = "Partial claim: tables are a legitimate object of static checking (constant extraction and comparison against the standard's tables); the evaluator's shape is decided; numerical clauses are not."
 TECHNIQUE = {
+    "C18": "static analysis: constant-table extraction and comparison with vendored NIST tables, partition/totality check, unit-exponent flow",
+    "C16": "static analysis: taint-style producer/consumer funnel, expression-shape check of the encoder, alphabet agreement, key-space typing of map accesses",
     "C07": "static analysis: decision-table analysis over threshold-induced cells, interval/numeric-kind analysis, table and layout agreement",
     "C12": "static analysis: interval/numeric-kind analysis of the encoder, sibling expression normalisation, constant folding",
     "C01": "static analysis: dispatch exhaustiveness over the class hierarchy, size/format agreement, endianness dataflow, container discipline",
